@@ -1019,6 +1019,7 @@ def dataframe_to_tree(
         root_node = node_type(root_name, **root_node_kwargs)
     else:
         root_node = node_type(root_name)
+    root_node.sep = sep
 
     for row in data.to_dict(orient="index").values():
         node_attrs = assertions.filter_attributes(
@@ -1031,7 +1032,6 @@ def dataframe_to_tree(
             duplicate_name_allowed=duplicate_name_allowed,
             node_attrs=node_attrs,
         )
-    root_node.sep = sep
     return root_node
 
 
@@ -1256,6 +1256,7 @@ def polars_to_tree(
         root_node = node_type(root_name, **root_node_kwargs)
     else:
         root_node = node_type(root_name)
+    root_node.sep = sep
 
     for row in data.to_dicts():
         node_attrs = assertions.filter_attributes(
@@ -1268,7 +1269,6 @@ def polars_to_tree(
             duplicate_name_allowed=duplicate_name_allowed,
             node_attrs=node_attrs,
         )
-    root_node.sep = sep
     return root_node
 
 
